@@ -571,12 +571,16 @@ class List(list, base.Symbolic, pg_typing.CustomTyping):
         stop = start
       slice_size = math.ceil((stop - start) * 1.0 / step)
       if not extended:
-        if (self.max_size is not None and
-            len(self) - slice_size + len(replacements) > self.max_size):
+        new_size = len(self) - slice_size + len(replacements)
+        if self.max_size is not None and new_size > self.max_size:
           raise ValueError(
               f'Cannot assign slice: the number of elements '
-              f'({len(self) - slice_size + len(replacements)}) exceeds max '
-              f'size ({self.max_size}).')
+              f'({new_size}) exceeds max size ({self.max_size}).')
+        if self._value_spec and new_size < self._value_spec.min_size:
+          raise ValueError(
+              f'Cannot assign slice: the number of elements '
+              f'({new_size}) is less than min size '
+              f'({self._value_spec.min_size}).')
         if slice_size < len(replacements):
           for i in range(slice_size, len(replacements)):
             replacements[i] = Insertion(replacements[i])
@@ -589,11 +593,14 @@ class List(list, base.Symbolic, pg_typing.CustomTyping):
             f'attempt to assign sequence of size {len(replacements)} to '
             f'extended slice of size {slice_size}')
       updates = []
-      for i, r in enumerate(replacements):
-        update = self._set_item_without_permission_check(start + i * step, r)
-        if update is not None:
-          updates.append(update)
-      self._sync_children()
+      try:
+        for i, r in enumerate(replacements):
+          update = self._set_item_without_permission_check(
+              start + i * step, r)
+          if update is not None:
+            updates.append(update)
+      finally:
+        self._sync_children()
       if flags.is_change_notification_enabled() and updates:
         self._notify_field_updates(updates)
     elif isinstance(index, numbers.Integral):
